@@ -112,6 +112,20 @@ impl Property for C07 {
                 }
             })
             .exhaustive(),
+            // a document is opened with the very text its file has (variant 0), another program rewrites the
+            // file while the document stays open, and the document is reached again through the root's includes
+            Family::new("unmodified-documents", 3, |ws, _r, emit| {
+                for f in 1..NFILES {
+                    for v in [1usize, 3, 9, 12, 20] {
+                        for ops in [json!([[0, f, 0], [2, f, v], [0, 0, 7]]), json!([[0, 0, 7], [0, f, 0], [3, f, 0], [0, 0, 15]]), json!([[0, f, v], [0, f, 0], [2, f, v], [0, 0, 7], [2, f, 0], [0, 0, 15]])] {
+                            if !emit(json!({"kind": "server-hist", "ops": ops, "ws": ws})) {
+                                return;
+                            }
+                        }
+                    }
+                }
+            })
+            .exhaustive(),
             Family::new("random-histories", ctx.tier.pick(48, 1500), |_c, rng, emit| {
                 for _ in 0..40 {
                     let n = 1 + rng.below(12);
